@@ -13,6 +13,7 @@ contracts/native/<dir>/test.rs     integration test copied to <crate>/tests/veri
 contracts/native/<dir>/driver.py   `prepare <dir>` writes the inputs, `judge <dir>` prints
                                    {"evaluated": n, "mismatches": [{"input":..,"expected":..,"got":..}, ...]}
 """
+import fcntl
 import json
 import os
 import shutil
@@ -75,6 +76,8 @@ class NativeCopy:
 
     def __enter__(self):
         os.makedirs(self.root, exist_ok=True)
+        self.lock = open(os.path.dirname(self.root) + ".lock", "w")
+        fcntl.flock(self.lock, fcntl.LOCK_EX)
         r = subprocess.run(["rsync", "-a", "--delete", "--exclude", "/target", "--exclude", ".git", REPO.rstrip("/") + "/", self.root + "/"],
                            capture_output=True, text=True)
         if r.returncode != 0:
@@ -85,6 +88,8 @@ class NativeCopy:
     def __exit__(self, *exc):
         if not os.environ.get("VERIF_KEEP_SCRATCH"):
             shutil.rmtree(os.path.dirname(self.root), ignore_errors=True)
+        fcntl.flock(self.lock, fcntl.LOCK_UN)
+        self.lock.close()
 
 
 def _cache_path(copy_hash, u):
